@@ -93,11 +93,11 @@ MANIFEST = {
                   "re-added key a NEW FileId (proved: c13_project_readd_moves_last, c13_project_order_counterexample), "
                   "so with duplicate global names across files the answers after remove+re-add differ from a freshly "
                   "loaded Project; recorded as known finding C13-project-readd-id-order and replayed on every run. "
-                  "'No query panics for any file contents' is FALSE on the current tree in the dev profile: an enum value "
-                  "of i64::MAX overflows `next_value = value + 1` in collect_enum_type and every project-level query "
-                  "panics (known finding C13-enum-next-value-overflow, found by the constant-expression stream, replayed "
-                  "on every run; Lean: c13_counterexample_enum_overflow / c13_enum_values_partial); panics are classified "
-                  "by message and location, any other panic is a violation. "
+                  "'No query panics for any file contents' was false in the dev profile: an enum value of i64::MAX "
+                  "overflowed `next_value = value + 1` in collect_enum_type and every project-level query panicked "
+                  "(C13-enum-next-value-overflow, found by the constant-expression stream, fixed in /repo by 0bd32a4; the "
+                  "witness is replayed on every run as a regression case, Lean: c13_enum_values_no_overflow); any panic "
+                  "is a violation. "
                   "Proved for the Project layer: c13_project_view (texts by key are right), c13_project_db_fresh "
                   "(answers equal a fresh Database given the same ids).",
 }
@@ -105,8 +105,8 @@ MANIFEST = {
 KNOWN_SIG = "project-readd-id-order"
 # known panics: (signature in known_findings.json, substrings that must all occur in the panic message)
 KNOWN_PANICS = [
-    ("panic:collector/types.rs:attempt to add with overflow",
-     ("collector/types.rs", "attempt to add with overflow")),
+    # ("panic:collector/types.rs:attempt to add with overflow", ("collector/types.rs", "attempt to add with overflow")),
+    #   C13-enum-next-value-overflow: fixed by 0bd32a4; its witness is now a regression case, a panic is a violation
 ]
 
 
